@@ -5,6 +5,21 @@ CHECKS = {
   "note": "Assumes DryRunAll writes have no side effect and a dry-run accepted by the API server predicts the real write. Not decided: atomicity across API calls in the second phase, owner-reference histories across upgrade/rollback sequences.",
   "technique": "static analysis: gate-crossing reachability on go/ssa CFG, option provenance (DryRunAll, ptr.To(false)), who-may-call inventory for client.Create",
  },
+ "C17": {
+  "text": "Static analysis of the resolver, the dependency manager and both DAGs: package writes need ok(dag.Init) then ok(dag.Sort); nothing is created on the empty-version edge; a version is returned/remembered only on the true edge of a constraint Check of that version (or while the all-parents-valid flag is set), or is the pinned digest; lists are sorted ascending, the install scan has no early exit, the update scan returns the first not-older match; Resolve succeeds only past the no-missing and no-invalid edges; both DAGs mark the DFS stack, fail on back edges and missing nodes; the upgrading DAG reads parent constraints after adding the edge. Decides gating and selection idioms, not semver semantics.",
+  "note": "Assumes sort.Sort(semver.Collection) is ascending and Constraints.Check is the oracle. Not decided: semver semantics, graph algorithms over arbitrary graphs, registry tag lists.",
+  "technique": "static analysis: gate-crossing reachability, flag-phi analysis, loop early-exit analysis, sibling agreement over the two DAG implementations",
+ },
+ "C19": {
+  "text": "Static analysis across code and the shipped YAML: every Usage lookup and the registered indexer share key and value function (group-based), the indexer omits only Usages without a named resource; the webhook configuration's objectSelector equals the label key/value the reconciler writes, covers DELETE with failurePolicy Fail on the registered path; the webhook allows only on zero usages after ok(List); Available needs the acknowledged in-use label (or the label already equal to the selected value); the label is removed only on an edge false for every count >= 2; owner reference persisted before Available and preserved by RespectOwnerRefs in the P&T apply. Decides agreement and gating, not admission plumbing or timing.",
+  "note": "Assumes the shipped webhook configuration is the installed one. Not decided: 'every delete refused' across time/API versions (cache lag), interleavings.",
+  "technique": "static analysis: cross-artifact constant agreement (Go constants vs YAML), gate-crossing reachability, length-comparison evaluation over all counts",
+ },
+ "C20": {
+  "text": "Static analysis of the initialisers: the installed-package index is built and looked up with the same key function and parse options and the existing name is reused; Generate and secret writes are unreachable from the has-material edges, the complete CA is loaded, Create/Update follow the found flag on flag-consistent paths, write errors are unfiltered and the new CA is used only after the acknowledged write; leaf certificates are signed by this run's CA with the configured DNS names; default objects use create-if-absent; CA bundles are injected from the TLS secret before Apply and an empty tls.crt is refused. Decides these shapes, not equality of cluster state after n runs.",
+  "note": "Assumes APIPatchingApplicator.Apply is idempotent. Not decided: state equality after n runs, x509 validity, partial-secret recovery. Finding F2 (fixed by aeb5e6b) is re-derived by R20.1 on the pre-fix code.",
+  "technique": "static analysis: key-function agreement by SSA provenance, must-not-reach from material edges, feasible-path enumeration with flag propagation, error-filter inspection",
+ },
  "C18": {
   "text": "Static analysis of the RBAC manager: no role Apply without an acknowledged validation and the empty-rejected edge; family merge only on Differs==false and Differs fails closed; permission requests flow only into the system role; the baseline literal is within the stated set; every PolicyRule literal is built from CRD references / XRD names plus constant suffixes; the allow tree answers true only through segment-or-wildcard children and every expanded request is checked. Decides rule provenance and gating, not the agreement of the tree with Kubernetes' covers relation.",
   "note": "Assumes rbacv1.PolicyRule semantics and that the Applicator enforces MustBeControllableBy. Not decided: the allow tree versus Kubernetes' own rule-covering relation for all rule pairs, registry reference parsing semantics.",
